@@ -23,7 +23,12 @@ COMMON = ["-std=gnu++17", "-ffp-contract=off", "-fno-strict-aliasing", "-Wno-dep
 VARIANTS = {
     # name: (compiler, flags)
     "fast": ("g++", ["-O2", "-fno-tree-vectorize"] + COMMON),
-    "san": ("clang++", ["-O1", "-gline-tables-only", "-fsanitize=address,undefined", "-fno-sanitize-recover=undefined", "-fno-omit-frame-pointer"] + COMMON),
+    # the sanitizer binary is also the release-like configuration (-DNDEBUG); the fast binary keeps asserts on
+    "san": ("clang++", ["-O1", "-DNDEBUG", "-gline-tables-only", "-fsanitize=address,undefined", "-fno-sanitize-recover=undefined", "-fno-omit-frame-pointer"] + COMMON),
+    # arbitration binaries, built only when the two above disagree on a failure: same preprocessor
+    # configuration as the finder, but the other compiler
+    "arb_ndebug": ("g++", ["-O2", "-DNDEBUG", "-fno-tree-vectorize"] + COMMON),
+    "arb_debug": ("clang++", ["-O1"] + COMMON),
     "fuzz": ("clang++", ["-O1", "-fsanitize=fuzzer,address,undefined", "-fno-sanitize-recover=undefined", "-DVP_FUZZ=1"] + COMMON),
 }
 LIBFLAGS_OVERRIDE = {"fuzz": ["-O1", "-fsanitize=fuzzer-no-link,address,undefined", "-fno-sanitize-recover=undefined"] + COMMON}
@@ -443,7 +448,18 @@ def run_cpp(prop, tier, seed, only=None):
                 if rc == 1 or rc == 99 or rc < 0:
                     violations.append((f["replay"], "%s: %s | case: %s" % (f["key"], f["msg"], f["case"])))
                 else:
-                    errors.append("toolchain disagreement on %s (found by %s binary, other binary rc=%d): %s" % (f["replay"], name, rc, f["msg"]))
+                    # the two binaries differ in compiler AND in NDEBUG: arbitrate with the other compiler in the
+                    # finder's preprocessor configuration before calling it a toolchain problem
+                    arb = "arb_debug" if name == "fast" else "arb_ndebug"
+                    try:
+                        arb_exe = build_binary(prop, arb)
+                        rc2, out2 = replay_on(arb_exe, f["replay"])
+                    except BuildError as e:
+                        rc2, out2 = 2, str(e)[-300:]
+                    if rc2 == 1:
+                        violations.append((f["replay"], "%s: %s | case: %s [only in the %s configuration; confirmed by both compilers]" % (f["key"], f["msg"], f["case"], "asserts-on" if name == "fast" else "-DNDEBUG")))
+                    else:
+                        errors.append("toolchain disagreement on %s (found by %s binary, other binary rc=%d, arbitration rc=%d): %s" % (f["replay"], name, rc, rc2, f["msg"]))
     # --- 3b. extra configuration programs (stand-alone, print FAIL lines)
     extras_info = []
     for ex in spec.get("extras", []):
